@@ -228,3 +228,11 @@ def stall_knob(rng, p=0.15):
         return {}
     m = rng.choice([2, 3, 3, 4])
     return {"stall_mod": m, "stall_rem": rng.choice([0, rng.randrange(m)]), "stall_scale": rng.choice([0.02, 0.1])}
+
+
+def pool_knob(rng, backend, p=0.5):
+    """storage options that size the SQL back end's semaphores (tuning knobs a deployment may set): small values
+    make a leaked or never-released slot visible after one or two incidents instead of ten"""
+    if backend != "sql" or rng.random() >= p:
+        return {}
+    return {"num_concurrent_reqs": rng.choice([1, 2, 3, 10]), "num_concurrent_adds": rng.choice([1, 2, 4])}
